@@ -321,8 +321,8 @@ pub fn spec() -> PropSpec {
             "the original-handshake peer follows RTMP 1.0 section 5.2: C1/S1 = time, four zero bytes, random; C2/S2 = echo of the peer's packet 1",
         ],
         checks: vec![
-            PropCheck::new("library-vs-library", |_| case_strategy(false), 3_000, 120_000, eval),
-            PropCheck::new("original-handshake-peer", |_| case_strategy(true), 2_000, 80_000, eval),
+            PropCheck::new("library-vs-library", |_| case_strategy(false), 60_000, 1_500_000, eval),
+            PropCheck::new("original-handshake-peer", |_| case_strategy(true), 40_000, 1_000_000, eval),
             EnumCheck::new("every-single-cut", true, single_cuts, eval),
         ],
     }
